@@ -121,7 +121,25 @@ for ent, fns, props, what in (
      "send_chunk_or_dataless on an arbitrary session: payload <= fragsize, last flag only on the final fragment, fragment number field, one answer (+1 for a remembered duplicate), query consumed, SESSION_WF preserved"),
     ("h_downstream_ack", ["process_downstream_ack"], {"C15": "all", "C05": "safety"}, "process_downstream_ack: only a matching ack advances, by exactly the bytes sent, fragment numbers consecutive"),
     ("h_outpacket_queue", ["save_to_outpacketq", "get_from_outpacketq", "start_new_outpacket"], {"C15": "all", "C01": "all", "C05": "safety"}, "outpacket queue: FIFO of 4, new packets start at fragment 0 with the next sequence number")):
-    G(name="srv_" + ent[2:], harness="h_iodined.c", entry=ent, enforce=fns, style="legacy", unwind=17, unwindset=["h_send_chunk.0:6", "h_send_chunk.1:5", "h_downstream_ack.0:6", "h_downstream_ack.1:5", "h_outpacket_queue.0:6", "h_outpacket_queue.1:5"], cbmc_flags=SRV_FLAGS, props=props, min_obl=10, timeout=900, cost=100, mem_gb=24, what=what, **SRV_SHRINK)
+    G(name="srv_" + ent[2:], harness="h_iodined.c", entry=ent, enforce=fns, defs=(["STUB_GETQ=1"] if ent == "h_send_chunk" else []), style="legacy", unwind=17, unwindset=["h_send_chunk.0:6", "h_send_chunk.1:5", "h_downstream_ack.0:6", "h_downstream_ack.1:5", "h_outpacket_queue.0:6", "h_outpacket_queue.1:5"], cbmc_flags=SRV_FLAGS, props=props, min_obl=10, timeout=900, cost=100, mem_gb=24, what=what, **SRV_SHRINK)
+
+for cmd in "ZY":
+    G(name="srv_cmd_%s" % cmd, harness="h_iodined.c", entry="h_cmd_open", defs=["H_CMD='%s'" % cmd, "STUB_HELPERS=1"], enforce=["handle_null_request"],
+      style="legacy", unwind=33, cbmc_flags=SRV_FLAGS, props={"C03": "all", "C04": "all", "C05": "safety", "C14": "all"}, min_obl=10, timeout=900, cost=200, mem_gb=24,
+      what="handle_null_request, open probe %s: one answer, no session touched, no tun write" % cmd, **SRV_SHRINK)
+G(name="srv_cmd_V", harness="h_iodined.c", entry="h_cmd_version", defs=["H_CMD='V'", "STUB_HELPERS=1"], enforce=["handle_null_request"],
+  style="legacy", unwind=33, cbmc_flags=SRV_FLAGS, props={"C03": "all", "C04": "all", "C05": "safety", "C14": "all", "C15": "all"}, min_obl=10, timeout=900, cost=200, mem_gb=24,
+  what="handle_null_request, V: never authenticates; a new challenge clears both login flags; takes only a slot unused or silent > 60 s; fresh session: fragsize 100, DNS mode, empty buffers; one 9-byte answer", **SRV_SHRINK)
+for uc in (0, 1):
+    G(name="srv_cmd_L_u%d" % uc, harness="h_iodined.c", entry="h_cmd_login", defs=["H_CMD='L'", "H_UID_CASE=%d" % uc, "STUB_HELPERS=1"], enforce=["handle_null_request"],
+      style="legacy", unwind=33, cbmc_flags=SRV_FLAGS, props={"C03": "all", "C04": "all", "C05": "safety", "C14": "all", "C19": "all"}, min_obl=10, timeout=900, cost=200, mem_gb=24,
+      what="handle_null_request, L (userid case %d): the login flag rises only for a live session from its own source whose 16 bytes equal login_calculate(password, that session's current seed); nothing else changes; BADIP/BADLEN otherwise" % uc, **SRV_SHRINK)
+
+for cmd, nm in (("P", "ping"), ("D", "data")):
+    for uc in (0, 1):
+        G(name="srv_cmd_%s_u%d" % (nm, uc), harness="h_iodined.c", entry="h_cmd_stream", defs=["H_CMD='%s'" % cmd, "H_UID_CASE=%d" % uc, "STUB_HELPERS=1", "STUB_CONTRACTS=1"], enforce=["handle_null_request"],
+          style="legacy", unwind=33, cbmc_flags=SRV_FLAGS, props={"C03": "all", "C04": "all", "C05": "safety", "C14": "all", "C16": "all", "C01": "all"}, min_obl=10, timeout=900, cost=300, mem_gb=24,
+          what="handle_null_request, %s (userid case %d), stream helpers replaced by their contracts: token accounting (answers + held <= received + held before), id 0 ignored, nothing without a live authenticated session, cache/qmem hit touches nothing, at most one delivery, SESSION_WF preserved, every send_chunk_or_dataless call site has id != 0" % (nm, uc), **SRV_SHRINK)
 
 LEVELS = {}
 TRUSTED_BASE = ["CBMC 6.11.0 (goto-cc front end, goto-instrument --dfcc contract instrumentation, symex)",
